@@ -3334,34 +3334,54 @@ def r02_misc(cx, R, S):
     # ---- switch padding of the writer (the reader's table is R01.11)
     al = cx.wfn("align_to_4_byte_boundary")
     if R.anchor("R02.5", "fn simple_class_writer::align_to_4_byte_boundary", al):
-        ms = D.int_matches(al["body"], 3)
-        if R.anchor("R02.5", "match in the writer's align_to_4_byte_boundary", len(ms) == 1, sp=al["sp"]):
-            sc = _whole_value(al["body"], ms[0]["scrut"])
-            pid = H.pat_bindings(al["params"][0])[0][0]
-            masked = sc.get("k") == "bin" and ((sc["op"] == "&" and H.const_value(sc["r"]) == 3) or (sc["op"] == "%" and H.const_value(sc["r"]) == 4))
-            l = H.peel(sc["l"], casts=True) if masked else {}
-            on_len = l.get("k") == "mcall" and l["name"] == "len" and H.local_of(l["recv"]) and H.local_of(l["recv"])[0] == pid
-            R.inst("R02.5", "align:position=len&3", bool(masked and on_len), sp=al["sp"], expect="writer.len() & 0b11 or writer.len() % 4 (the code buffer starts at bytecode offset 0)",
-                   got=H.render(sc))
-            for k, pad in S["align4_padding"].items():
-                ev = EvalW(scrut_override={id(ms[0]): ("i", int(k))})
-                try:
-                    ev.match(ms[0], {})
-                except (T.Return, T.Break):
-                    pass
-                n = 0
-                zero = True
-                for (nm, v, node) in ev.writes:
-                    a = H.peel(node["args"][0]) if nm == "write_u8_slice" else None
-                    if a is not None and a.get("k") == "array":
-                        n += len(a["es"])
-                        zero = zero and all(H.const_value(x) == 0 for x in a["es"])
-                    elif nm == "write_u8":
-                        n += 1
-                        zero = zero and v == ("i", 0)
-                    else:
-                        n += 100
-                R.inst("R02.5", "align-padding:%s" % k, n == pad and zero, sp=al["sp"], expect="%d zero byte(s)" % pad, got=n)
+        # decided by evaluation, whatever the spelling (a `match len & 3`, `(4 - len % 4) % 4` with resize / a push loop, ...): the function
+        # is run with the buffer at length 0..7 and the zero bytes it appends are counted
+        pid = H.pat_bindings(al["params"][0])[0][0]
+
+        class EvalAlign(EvalW):
+            def __init__(self, pos, **kw):
+                super().__init__(**kw)
+                self.pos, self.pad, self.zero, self.other = pos, 0, True, []
+
+            def call(self, n, c, args, env):
+                name = H.callee_name(n)
+                on_buf = n.get("k") == "mcall" and H.local_of(H.peel(n["recv"])) and H.local_of(H.peel(n["recv"]))[0] == pid
+                if on_buf and name == "len":
+                    return ("i", self.pos + self.pad)
+                if on_buf and name == "resize" and len(args) == 3 and args[1][0] == "i":
+                    self.pad += args[1][1] - (self.pos + self.pad)
+                    self.zero = self.zero and args[2] == ("i", 0)
+                    return ("t", [])
+                if on_buf and name == "push" and len(args) == 2:
+                    self.pad += 1
+                    self.zero = self.zero and args[1] == ("i", 0)
+                    return ("t", [])
+                if on_buf and name not in U.WRITE_PRIM and name != "write_u8_slice":
+                    self.other.append(name)
+                return super().call(n, c, args, env)
+        for pos in range(8):
+            ev = EvalAlign(pos)
+            res = None
+            try:
+                res = ev.run_fn(al, [T.sym("writer")])
+            except Exception as e:           # the evaluator cannot follow the shape: visible, not silent
+                ev.other.append("?" + type(e).__name__)
+            n, zero = ev.pad, ev.zero
+            for (nm, v, node) in ev.writes:
+                a = H.peel(node["args"][0]) if nm == "write_u8_slice" else None
+                if a is not None and a.get("k") == "array":
+                    n += len(a["es"])
+                    zero = zero and all(H.const_value(x) == 0 for x in a["es"])
+                elif nm == "write_u8":
+                    n += 1
+                    zero = zero and v == ("i", 0)
+                else:
+                    n += 100
+            pad = S["align4_padding"][str(pos % 4)]
+            okres = res is not None and res[0] == "v" and res[1] == "Ok"
+            R.inst("R02.5", "align-padding:len=%d" % pos, n == pad and zero and not ev.other and okres, sp=al["sp"],
+                   expect="%d zero byte(s), Ok(())" % pad, got={"bytes": n, "zero": zero, "other": ev.other, "result": T.show(res) if res else None},
+                   detail="the code buffer starts at bytecode offset 0, so the switch operands start at the next multiple of 4 of its length")
     # ---- string bytes are modified UTF-8 on both sides
     def uses(fnbody, name):
         return [n for n in H.walk(fnbody["body"]) if n.get("k") == "call" and H.callee_name(n) == name]
